@@ -4,6 +4,7 @@
 package model
 
 import (
+	"unicode/utf8"
 	"encoding/json"
 	"fmt"
 	"math/big"
@@ -119,6 +120,19 @@ type Piece struct {
 
 // ------------------------------------------------------------ YAML rendering
 
+// isPrintableForYAML tells whether every rune may stand literally in a YAML scalar (tab and printable runes).
+func isPrintableForYAML(s string) bool {
+	for _, r := range s {
+		if r == '\t' {
+			continue
+		}
+		if r < 0x20 || r == 0x7f || (r >= 0x80 && r <= 0x9f) || r == 0xfeff || r == 0xfffe || r == 0xffff || r == utf8.RuneError {
+			return false
+		}
+	}
+	return true
+}
+
 func jstr(s string) string {
 	var b strings.Builder
 	enc := json.NewEncoder(&b)
@@ -133,6 +147,7 @@ type YAMLStyle struct {
 	FlowValues   bool
 	JSON         bool
 	ZeroPad      bool // write numerals with leading zeros ("010/03", bpm 0120, degree 012): still decimal
+	RawTabs      bool // a tab inside a text is written as the tab character itself (single-quoted scalar) instead of an escape
 	Anchors      bool // repeated texts, symbols and keys as aliases of their first occurrence; one metadata pair through a merge key
 }
 
@@ -163,6 +178,10 @@ func (p Piece) YAML(st YAMLStyle) []byte {
 	// Anchors: a text that occurred before is written as an alias of its first occurrence
 	anchors := map[string]string{}
 	scalar := func(v string) string {
+		if st.RawTabs && strings.Contains(v, "\t") && !strings.ContainsAny(v, "\n\r\u2028\u2029\u0085") && isPrintableForYAML(v) {
+			// single-quoted: everything is literal, a quote is doubled
+			return "'" + strings.ReplaceAll(v, "'", "''") + "'"
+		}
 		if !st.Anchors || v == "" {
 			return jstr(v)
 		}
